@@ -18,6 +18,7 @@ RULE = ("namecoin/dogecoin chains whose blocks carry an AuxPoW section iff versi
         "high-version blocks stored without a section; a third of the directories are XOR-obfuscated (sections read through the XOR reader at unaligned offsets). distinct = (coin, version class, coinbase form, branch length class) signatures")
 
 AUX_COINS = ["namecoin", "dogecoin"]
+CHAIN_IDS = list(range(0, 33)) + [0x32, 0x5a, 0x62, 0x63, 0x7f, 0x80, 0xff, 0x100, 0x1000, 0x2000, 0x7fff, 0xffff]
 
 
 def aux_section(rng, shape):
@@ -61,7 +62,9 @@ def build(spec):
     for i in range(spec.get("blocks", 8)):
         vclass = spec["versions"][i % len(spec["versions"])]
         ver = {"below": thr_ref - 1, "at": thr_ref, "above": thr_ref + 1, "max": 0xFFFFFFFF, "one": 1, "random-high": rng.randint(thr_ref, 0xFFFFFFFF),
-               "random-low": rng.randint(0, thr_ref - 1), "bit-above": thr_ref | 0x100, "chainid": thr_ref + (rng.randint(1, 100) << 16)}[vclass]
+               "random-low": rng.randint(0, thr_ref - 1), "bit-above": thr_ref | 0x100, "chainid": thr_ref + (rng.randint(1, 100) << 16),
+               # merged-mining style versions: chain id << 16 | AuxPoW flag 0x100 | base version, for every small chain id and the ids real coins use
+               "auxflag": (CHAIN_IDS[(spec["n"] * 7 + i) % len(CHAIN_IDS)] << 16) | 0x100 | rng.choice([1, 2, 4, 0xff])}[vclass]
         ver &= 0xFFFFFFFF
         aux = None
         if thr is not None and ver >= thr:
@@ -131,10 +134,15 @@ def plan(chk):
         for i in range(1000 if chk.thorough else 40):
             n += 1
             specs.append(dict(case="case", coin=coin, seed=chk.seed, n=n, versions=vsets[i % len(vsets)] if i < 16 else [rng.choice(list("x")) and rng.choice(
-                ["below", "at", "above", "max", "one", "random-high", "random-low", "bit-above", "chainid"]) for _ in range(rng.randint(1, 5))],
+                ["below", "at", "above", "max", "one", "random-high", "random-low", "bit-above", "chainid", "auxflag"]) for _ in range(rng.randint(1, 5))],
                               branch_lengths=lens_big if (chk.thorough or i % 8 == 0) else lens_small, blocks=rng.choice([4, 8, 12]),
                               callbacks=["csvdump", "unspentcsvdump"] if i % 4 == 0 else (["csvdump", "simplestats"] if i % 4 == 1 else ["csvdump"]),
                               profile="debug" if i % 6 == 5 else "release"))
+    for coin in COIN_NAMES:
+        # every chain id with the AuxPoW flag bit: a section only where the coin's activation version is reached (never on the six others)
+        n += 1
+        specs.append(dict(case="case", coin=coin, seed=chk.seed, n=n, versions=["auxflag"], branch_lengths=lens_small, foreign_threshold=0x10101, blocks=len(CHAIN_IDS),
+                          callbacks=["csvdump"]))
     for coin in [c for c in COIN_NAMES if c not in AUX_COINS]:
         for i in range(20 if chk.thorough else 5):
             n += 1
